@@ -180,8 +180,7 @@ class TermInterp(Interp):
     def compose(self, vals):
         if len(vals) == 1:
             return vals[0]
-        if self.word_mode and len(vals) == 4 and all(v[0] == 'tb' and self.ts.node(v[1])[0] == 'v' for v in vals):
-            return ('tw', self.ws.leaf(tuple(self.ts.node(v[1])[1] for v in vals)))
+
         if all(v[0] == 'c' for v in vals):
             return C(sum((v[1] & 0xff) << (8 * i) for i, v in enumerate(vals)))
         ids = []
@@ -274,6 +273,9 @@ class TermInterp(Interp):
             return v[1]
         if v[0] == 'c':
             return self.ws.k(v[1])
+        if v[0] == 'bv' and len(v[1]) == 4 and all(self.ts.node(i)[0] == 'v' for i in v[1]):
+            # four message-byte leaves packed little-endian: one 32-bit word leaf
+            return self.ws.leaf(tuple(self.ts.node(i)[1] for i in v[1]))
         return None
 
     def twv(self, i):
@@ -282,7 +284,13 @@ class TermInterp(Interp):
     def arith(self, s, op, a, b, t, n=None):
         if not (is_term(a) or is_term(b)):
             return Interp.arith(self, s, op, a, b, t, n)
-        if a[0] == 'tw' or b[0] == 'tw':
+        wordish = a[0] == 'tw' or b[0] == 'tw'
+        if not wordish and self.word_mode and op in ('^', '&', '|', '+', '-') and (t or {}).get('bits') == 32 \
+                and self.wid(a) is not None and self.wid(b) is not None and (a[0] == 'bv' or b[0] == 'bv'):
+            wordish = True
+        if not wordish and self.word_mode and op in ('<<', '>>') and b[0] == 'c' and b[1] % 8 and a[0] == 'bv' and self.wid(a) is not None:
+            wordish = True
+        if wordish:
             ws = self.ws
             bits = (t or {}).get('bits', 32)
             if bits != 32:
@@ -377,8 +385,6 @@ class TermInterp(Interp):
 
     def pack(self, ids):
         ts = self.ts
-        if self.word_mode and len(ids) == 4 and all(ts.node(i)[0] == 'v' for i in ids):
-            return ('tw', self.ws.leaf(tuple(ts.node(i)[1] for i in ids)))
         if all(ts.is_k(i) for i in ids):
             return C(sum(ts.kval(i) << (8 * k) for k, i in enumerate(ids)))
         if all(ts.is_k(i) and ts.kval(i) == 0 for i in ids[1:]):
